@@ -424,6 +424,8 @@ def run(rep):
     core.import_rules(rep, "c07", {"LOCKSTEP", "FLAG", "PLAIN-CASE"})
     # the matrix rewrite replaces an or-group by a Matrix node: the solver's three Matrix evaluators against the or-of-ands tables
     core.import_rules(rep, "c06", {"TRI-MATRIX"})
+    # shake merges plain searches into one automaton: the automaton arm of search() has to answer exactly like the searches it replaces
+    core.import_rules(rep, "c07", {"T-SEARCH", "T-OFFSET"})
     # ---------------------------------------------------------------- OPT-PANIC (shared with C03)
     n = core.import_rules(rep, "c03", {"PANIC", "L-IDENT", "L-SHAPE", "L-MATRIX", "L-LOCKSTEP"})
     rep.describe("PANIC", "optimise/match never panic: every reachable panic-capable site is discharged (shared with C03)")
